@@ -106,7 +106,7 @@ def run(res, tier, seed, shard, nshards):
     H.scrub_env()
     jobs = []
     # (a) response head grammar
-    for i in range(2500 if tier == "quick" else 40000):
+    for i in range(2500 if tier == "quick" else 250000):
         jobs.append(("head", i))
     # (b) redirect chains
     stats = [302] if tier == "quick" else [301, 302, 303, 307, 308]
